@@ -88,17 +88,26 @@ def fixedCandidate (cfg : SubCfg) (xs : List Int) (bps baseline : Nat) (log : Li
         some (some (.fixed (xs.take k) res bps), log)
       else some (none, log)
 
+/-- constant.rs `qlpc::MAX_ORDER` (= `MAX_LPC_ORDER` of coding.rs): the capacity of the warm-up vector
+`heapless::Vec<i32, MAX_LPC_ORDER>` of an `Lpc` sub-frame.  (Theorems/C09Gen.lean, `maxLpcOrder_gen`, proves it
+equal to the constant generated from constant.rs.) -/
+def maxLpcOrder : Nat := 24
+
 /-- `estimated_qlpc`: `none` = log-shape mismatch or a panic site; `some (none, _)` = `compute_error`
 reported an error value that is not a FLAC residual, the candidate is dropped (`encode_residual` is not
-called). -/
+called).  The last panic site is `heapless::Vec::from_slice(&signal[0..order]).expect("LPC order exceeded the
+maximum")` (coding.rs:391-392), reached after `encode_residual` has returned: a parameter set of more than
+`maxLpcOrder` coefficients does not fit the warm-up vector. -/
 def lpcCandidate (cfg : SubCfg) (xs : List Int) (bps : Nat) (log : List OEvent) :
     Option (Option SubFrame × List OEvent) :=
   match log with
   | .qlpc coefs shift precision :: log =>
     (computeError coefs shift.toNat xs).bind fun r =>
       if r.2 then
-        (encodeResidual cfg.maxP r.1 coefs.length).map fun res =>
-          (some (.lpc (xs.take coefs.length) coefs shift precision res bps), log)
+        (encodeResidual cfg.maxP r.1 coefs.length).bind fun res =>
+          if coefs.length ≤ maxLpcOrder then
+            some (some (.lpc (xs.take coefs.length) coefs shift precision res bps), log)
+          else none
       else some (none, log)
   | _ => none
 
